@@ -139,6 +139,14 @@ def stepC07 (c : CS) (l : Line) : CS :=
       let c := if l.nat "maininit" = 0 then mism c s!"SPEC[maininit-false-success] MainInit returned success although the load callback delivered unusable data (mode {l.nat "mode"})" else c
       let c := if l.nat "validate" = 0 then mism c s!"SPEC[validate-false-success] ValidateState returned success although the load callback delivered unusable data (mode {l.nat "mode"})" else c
       c
+  | "loadprobe" =>
+      let c := ev c
+      let c := branch c s!"loadprobe/k={l.nat "k"}/mode={l.nat "mode"}/fired={l.nat "fired"}/maininit={l.nat "maininit"}/manufactured={l.nat "manufactured"}"
+      let c := if l.nat "fired" = 1 ∧ l.nat "manufactured" = 1 then
+          mism c s!"SPEC[load-error-as-no-state] a load error at call {l.nat "k"} of MainInit (mode {l.nat "mode"}) was taken for 'no state': a new TPM was manufactured over existing state" else c
+      let c := if l.nat "same" ≠ 1 ∧ (l.str "n0").toInt?.getD 0 > 0 then
+          mism c s!"SPEC[state-replaced] after a MainInit with a load fault (call {l.nat "k"}, mode {l.nat "mode"}, MainInit={l.nat "maininit"}) the stored TPM is not the same TPM any more (after={l.nat "after"}, startup rc={l.nat "startup_rc"})" else c
+      c
   | _ => c
 
 def checkC07 (ls : List Line) : Report := (ls.foldl stepC07 {}).rep
